@@ -108,8 +108,20 @@ def gen_names(rng, L, pool=NAMES):
     return cb, streams
 
 
+def prefix_free(order):
+    """no namespace prefix is a proper string prefix of a later one (except the root): otherwise a full key
+    belongs to two namespaces under different short names and "the sensor's namespace" is ambiguous"""
+    for i, a in enumerate(order):
+        for b in order[i + 1:]:
+            if a != '' and b != a and b.startswith(a):
+                return False
+    return True
+
+
 def place_case(rng, L, mask, kind):
     cb, streams = gen_names(rng, L)
+    while kind == 'sensor' and not prefix_free(spec_order(cb, streams)):
+        cb, streams = gen_names(rng, L)
     return dict(kind=kind, cb=cb, streams=streams, mask=[bool(b) for b in mask], wrap=rng.random() < 0.5)
 
 
@@ -598,7 +610,11 @@ def judge_flags(ctx, case, res, replies):
     for nm, _ in qual:
         ex = by_name[nm]
         if not ex['own_ci']:
-            continue      # its chunk_info falls through to the L0 one: a no-op upgrade
+            # no chunk_info of its own for this capture block: the lookup falls through to the L0 stream's
+            # (property silent; the code re-installs the L0 arrays) - follow the mirror model
+            ctx.tag('flags-no-own-chunk-info')
+            chosen = 'l0'
+            continue
         if (ex['F'], ex['B']) != (F, B):
             mismatch = True
             break
